@@ -108,7 +108,9 @@ def check(case, ctx):
         from rv.props._util import repeat_call
 
         fn2, a2 = {"adder": (cg.logic.adder, (w, case.get("cin"), case.get("cout"))), "mux": (cg.logic.mux, (w,)), "popcount": (cg.logic.popcount, (w,)), "half_adder": (cg.logic.half_adder, ()), "full_adder": (cg.logic.full_adder, ())}[blk]
-        if not repeat_call(ctx, blk, f"logic.{blk}({w})", fn2, a2, {}, (ok, c)):
+        ok, c = repeat_call(ctx, blk, f"logic.{blk}({w})", fn2, a2, {}, (ok, c))
+        if not ok:
+            ctx.violation(blk + "_raised", f"logic.{blk}({w}) raised {c!r} when called again")
             return
         # a caller may customise a returned block in place; later blocks must not be affected
         for nn in list(c.graph.nodes)[:4]:
